@@ -66,24 +66,31 @@ structure LoadQuirks where
   something is merged into a *fresh copy* at every `@use`, so its users do not share its
   variables -/
   forwardingModuleCopied : Bool := false
+  /-- C37 (before commit 23c2f01): `@use … with (…)` of an already loaded module silently took
+  the loaded module; since then it is an error -/
+  reconfigureIgnored : Bool := false
+  /-- C02/C03 (open): a relative url that normalises to a directory keeps its trailing slash
+  (`@use "."` in `w/b.scss` → `w/` → the name `w//_index.scss`, an alias of `w/_index.scss`) -/
+  dirUrlKeepsSlash : Bool := false
   deriving DecidableEq, Repr
 
 def LoadQuirks.spec : LoadQuirks := {}
 def LoadQuirks.asis : LoadQuirks :=
   { loadKeyTextual := true, loadCssUnlockEarly := true, noLoadPathFallback := true,
     candidateMajor := true, normalizeKeepsEmpty := true, importFreshCache := true,
-    forwardingModuleCopied := true }
+    forwardingModuleCopied := true, reconfigureIgnored := true, dirUrlKeepsSlash := true }
 
 /-- the code after the first round of repairs — 56921f7 (fallback lookup) and 51f269b
 (normalised urls) — and before the second -/
 def LoadQuirks.mid : LoadQuirks :=
   { loadCssUnlockEarly := true, candidateMajor := true, normalizeKeepsEmpty := true,
-    importFreshCache := true, forwardingModuleCopied := true }
+    importFreshCache := true, forwardingModuleCopied := true, reconfigureIgnored := true,
+    dirUrlKeepsSlash := true }
 
 /-- the code today: also 3fe5f5c (empty segments), a803597 (load-css stays locked) and
 31d0dab (`Loader::find_first`: location-major lookup) -/
 def LoadQuirks.now : LoadQuirks :=
-  { importFreshCache := true, forwardingModuleCopied := true }
+  { importFreshCache := true, forwardingModuleCopied := true, dirUrlKeepsSlash := true }
 
 /-- the `names` tables of `Context::find_file`; `base` is empty or ends with a slash -/
 def candidates (k : Kind) (base name : Str) : List Str :=
@@ -189,7 +196,11 @@ def normUrl (q : LoadQuirks) (url : Str) : Str :=
 def relUrl (q : LoadQuirks) (self url : Str) : Str :=
   if (dirOf self).isEmpty then url
   else if q.loadKeyTextual then dirOf self ++ url
-  else normalize (!q.normalizeKeepsEmpty) (dirOf self ++ url)
+  else
+    let u := normalize (!q.normalizeKeepsEmpty) (dirOf self ++ url)
+    -- demanded by the property, absent from the code: `w/` (a directory) is the url `w`
+    if !q.dirUrlKeepsSlash && 1 < u.length && u.getLast? == some slash && url.getLast? != some slash
+    then u.dropLast else u
 
 /-- the lookups of `Context::find_file`: `do_find_file(relative(from, url))` and, since commit
 56921f7, `do_find_file(url)` when that finds nothing and the two urls differ -/
